@@ -43,8 +43,28 @@ from pyvc.values import (NONE, V, VBool, VExt, VFunc, VInt, VNoneT, VRef, VSeq, 
 from pyvc.verify import Maker, p_ext, p_opt
 
 OMML = "sharepoint2text/parsing/extractors/util/omml_to_latex.py"
-PE = f"{OMML}::omml_to_latex.<locals>.process_element"
-PENDING = "pending_sqrt_close"          # closure variable: part of the nested function's interface
+
+
+def _discover():
+    """the nested recursive worker of omml_to_latex and the enclosing-scope variable it rebinds, found by what they
+    are (the nested def with a `nonlocal` declaration / its single declared name), not by how they are called"""
+    name, var = "process_element", "pending_sqrt_close"
+    try:
+        m = loader.module(OMML)
+        outer = m.functions.get("omml_to_latex")
+        nested = [n for n in ast.walk(outer) if isinstance(n, ast.FunctionDef) and n is not outer] if outer is not None else []
+        withnl = [(n, [x for st_ in ast.walk(n) if isinstance(st_, ast.Nonlocal) for x in st_.names]) for n in nested]
+        withnl = [(n, v) for n, v in withnl if v]
+        if len(withnl) == 1 and len(set(withnl[0][1])) == 1:
+            name, var = withnl[0][0].name, withnl[0][1][0]
+    except Exception:  # noqa  (missing file etc.: the contract target will be reported missing)
+        pass
+    return name, var
+
+
+PE_NAME, PENDING = _discover()          # PENDING: the closure variable holding the closer a malformed radical waits for
+PE = f"{OMML}::omml_to_latex.<locals>.{PE_NAME}"
+PE_OID = "omml_to_latex.<locals>.process_element"      # stable obligation ids whatever the nested function is called
 
 S = z3.StringSort()
 I = z3.IntSort()
@@ -69,6 +89,8 @@ NFINDALL = z3.Function("el_findall_len", El, S, I)
 FINDALL = z3.Function("el_findall_item", El, S, I, El)
 NSPLIT = z3.Function("str_split_len", S, S, I)
 SPLITPART = z3.Function("str_split_part", S, S, I, S)
+AFTERLAST = z3.Function("str_after_last", S, S, S)   # the part of s after the last occurrence of sep (s itself if none)
+LASTIDX = z3.Function("str_rfind", S, S, I)
 STRIP = z3.Function("str_strip", S, S)
 CONV = z3.Function("convert_greek_and_symbols", S, S)   # the (pure, deterministic) function itself at call sites
 OML = z3.Function("omml_to_latex_of", El, S)            # omml_to_latex as a function of the (unmodified) tree, at call sites
@@ -289,8 +311,7 @@ def find_facts(e, path, r):
 
 def lname(e):
     """local name of the element's tag: the part after the last '}'"""
-    t = TAG(e)
-    return SPLITPART(t, sval("}"), z3.simplify(NSPLIT(t, sval("}")) - 1))
+    return AFTERLAST(TAG(e), sval("}"))
 
 
 def m_find(ex, st, obj, args, kwargs, node):
@@ -367,7 +388,48 @@ def m_split(ex, st, args, kwargs, node):
     sep = sval(args[1].const())
     n = NSPLIT(s.t, sep)
     st.assume(n >= 1)                 # str.split(sep) never returns an empty list
-    return [(st, VSeq(n, lambda i: VStr(SPLITPART(s.t, sep, z3.simplify(i))), "str"))]
+    last = z3.simplify(n - 1)
+
+    def part(i):
+        i = z3.simplify(i)
+        return VStr(AFTERLAST(s.t, sep)) if i.eq(last) else VStr(SPLITPART(s.t, sep, i))      # [-1]: after the last sep
+    return [(st, VSeq(n, part, "str"))]
+
+
+def m_rsplit(ex, st, args, kwargs, node):
+    s = args[0]
+    if len(args) != 3 or kwargs or not isinstance(args[1], VStr) or not args[1].const() or not isinstance(args[2], VInt) \
+            or args[2].const() is None or args[2].const() < 1:
+        raise Unsupported(f"{ex.loc(node)} str.rsplit form not modelled")
+    sep = sval(args[1].const())
+    n = z3.Int(fresh_name("nrsplit"))
+    st.assume(z3.And(n >= 1, n <= args[2].const() + 1))
+    last = z3.simplify(n - 1)
+
+    def part(i):
+        i = z3.simplify(i)
+        return VStr(AFTERLAST(s.t, sep)) if i.eq(last) else VStr(z3.String(fresh_name("rsplit_part")))
+    return [(st, VSeq(n, part, "str"))]
+
+
+def m_rpartition(ex, st, args, kwargs, node):
+    s = args[0]
+    if len(args) != 2 or kwargs or not isinstance(args[1], VStr) or not args[1].const():
+        raise Unsupported(f"{ex.loc(node)} str.rpartition form not modelled")
+    sep = sval(args[1].const())
+    has = z3.Contains(s.t, sep)
+    return [(st, VTuple([VStr(z3.String(fresh_name("rpart_head"))), VStr(z3.If(has, sep, sval(""))), VStr(AFTERLAST(s.t, sep))]))]
+
+
+def m_rfind(ex, st, args, kwargs, node):
+    s = args[0]
+    if len(args) != 2 or kwargs or not isinstance(args[1], VStr) or not args[1].const():
+        raise Unsupported(f"{ex.loc(node)} str.rfind form not modelled")
+    sep = sval(args[1].const())
+    k, ln, m = LASTIDX(s.t, sep), z3.Length(s.t), len(args[1].const())
+    st.assume(z3.And(k >= -1, k + m <= ln, (k >= 0) == z3.Contains(s.t, sep)))
+    st.assume(z3.If(k < 0, AFTERLAST(s.t, sep) == s.t, AFTERLAST(s.t, sep) == z3.SubString(s.t, k + m, ln - k - m)))
+    return [(st, VInt(k))]
 
 
 def m_strip(ex, st, args, kwargs, node):
@@ -406,6 +468,46 @@ def m_index(ex, st, args, kwargs, node):
     st.assume(z3.SubString(s.t, idx, z3.Length(pt)) == pt)
     st.assume(z3.Implies(z3.Length(pt) == 1, z3.SubString(s.t, idx, 1) == pt))
     return [(st, VInt(idx))]
+
+
+def m_partition(ex, st, args, kwargs, node):
+    """s.partition(sep) -> (before, sep, after) at the lowest occurrence, (s, "", "") when there is none"""
+    s_, p = args[0], (args[1] if len(args) > 1 else None)
+    if len(args) != 2 or kwargs:
+        raise Unsupported(f"{ex.loc(node)} str.partition form not modelled")
+    if isinstance(p, VOptStr):
+        st = ex.fork_raise(st, p.none, "TypeError")
+        if st is None:
+            return []
+        pt = p.t
+    elif isinstance(p, VStr):
+        pt = p.t
+    else:
+        raise Unsupported(f"{ex.loc(node)} str.partition of {p!r}")
+    st = ex.fork_raise(st, z3.Length(pt) == 0, "ValueError")          # empty separator
+    if st is None:
+        return []
+    out = []
+    s, ln = s_.t, z3.Length(s_.t)
+    if ex.feasible(st.pc, z3.Not(z3.Contains(s, pt))):
+        a = st.fork().assume(z3.Not(z3.Contains(s, pt)))
+        out.append((a, VTuple([s_, VStr(""), VStr("")])))
+    if ex.feasible(st.pc, z3.Contains(s, pt)):
+        st.assume(z3.Contains(s, pt))
+        idx = z3.IndexOf(s, pt, 0)
+        end = idx + z3.Length(pt)
+        before, after = ex.sub(s, z3.IntVal(0), idx), ex.sub(s, end, ln)
+        st.assume(z3.And(idx >= 0, end <= ln))
+        st.assume(z3.SubString(s, idx, z3.Length(pt)) == pt)
+        st.assume(s == z3.Concat(before, pt, after))
+        for h in HN:                  # split axiom at the two cut points
+            f = HOMS[h][0]
+            st.assume(f(before) + hom(h, pt) + f(after) == hom(h, s))
+        for t in (before, after):
+            for f in str_facts(t):
+                st.assume(f)
+        out.append((st, VTuple([VStr(before), VStr(pt), VStr(after)])))
+    return out
 
 
 def zero_sums():
@@ -451,8 +553,12 @@ def install(reg):
     reg.method_models[("Element", "iter")] = m_iter
     reg.attr_models[("Element", "tag")] = a_tag
     reg.ext_models["str.split"] = m_split
+    reg.ext_models["str.rsplit"] = m_rsplit
+    reg.ext_models["str.rpartition"] = m_rpartition
+    reg.ext_models["str.rfind"] = m_rfind
     reg.ext_models["str.strip"] = m_strip
     reg.ext_models["str.index"] = m_index
+    reg.ext_models["str.partition"] = m_partition
     reg.ext_models["str.join"] = m_join
 
 
@@ -668,7 +774,11 @@ class C19Executor(Executor):
         for name in sorted(self.assigned_names(nodes)):
             cur = st.lookup(name)
             if cur is not None:
-                self.rebind(st, name, self.havoc_like(st, cur, name))
+                nv = self.havoc_like(st, cur, name)
+                if isinstance(nv, VStr):
+                    for f in str_facts(nv.t):
+                        st.assume(f)
+                self.rebind(st, name, nv)
         for name, mk in sorted(self.closure_writes(st, nodes).items()):
             cond, nv = mk.make(self, st, fresh_name(name))[0]
             self.rebind(st, name, nv)
@@ -686,6 +796,29 @@ class C19Executor(Executor):
             else:
                 st.heap[ref] = HeapObj("unk", None, o.cls, False)
 
+    def string_accumulators(self, st, nodes):
+        """names bound to a str before the loop that the body only ever extends (`x += e`, `x = x + e`): the text they
+        gain is accumulated output exactly like the items appended to a list"""
+        out = []
+        for name in sorted(self.assigned_names(nodes)):
+            if not isinstance(st.lookup(name), VStr):
+                continue
+            ok = True
+            for b in nodes:
+                for n in ast.walk(b):
+                    if isinstance(n, ast.AugAssign) and isinstance(n.target, ast.Name) and n.target.id == name:
+                        ok = ok and isinstance(n.op, ast.Add)
+                    elif isinstance(n, ast.Assign) and any(isinstance(t, ast.Name) and t.id == name for t in n.targets):
+                        v = n.value
+                        ok = ok and isinstance(v, ast.BinOp) and isinstance(v.op, ast.Add) and isinstance(v.left, ast.Name) \
+                            and v.left.id == name
+                    elif isinstance(n, (ast.For, ast.comprehension)) and any(
+                            isinstance(t, ast.Name) and t.id == name for t in ast.walk(n.target)):
+                        ok = False
+            if ok:
+                out.append(name)
+        return out
+
     def havoc_ref(self, st, ref, o, nodes):
         """hook: havoc a heap object of a kind a subclass introduces; True when handled"""
         return False
@@ -697,7 +830,7 @@ class C19Executor(Executor):
         entry = st.fork()
         inv = spec.inv if spec is not None else None
         accs = sorted(r for r in (set(self.mutated_refs(nodes, st)) | set(accs_extra)) if self.is_strlist(st, r))
-        extra = {"accs": accs}
+        extra = {"accs": accs, "svars": self.string_accumulators(st, nodes)}
         if inv is not None:
             self.add_vc("inv-init", label, st.pc, self._b(inv(LoopCtx(self, st, z3.IntVal(0), entry, it, extra))),
                         loc=self.loc(node))
@@ -795,12 +928,65 @@ def mod(repo=None):
     return loader.module(OMML, repo)
 
 
+_PURE_BUILTINS = {k: __builtins__[k] if isinstance(__builtins__, dict) else getattr(__builtins__, k) for k in
+                  ("frozenset", "tuple", "dict", "set", "list", "sorted", "str", "len", "range", "zip", "enumerate", "chr", "ord",
+                   "int", "bool", "min", "max", "sum", "reversed", "map", "filter", "repr", "any", "all", "abs")}
+
+
+def const_value(m, name, _depth=0):
+    """value of a module-level constant of the real source: a literal, or a pure expression over literals, other such
+    constants and pure builtins (dict merges, comprehensions, f-strings ...) evaluated without any other name in scope.
+    Raises ValueError when the initialiser is not of that kind."""
+    if name not in m.assigns or _depth > 8:
+        raise ValueError(f"{name}: not a module-level constant")
+    node = m.assigns[name]
+    try:
+        return ast.literal_eval(node)
+    except (ValueError, SyntaxError, TypeError):
+        pass
+    for n in ast.walk(node):
+        if isinstance(n, (ast.Lambda, ast.Await, ast.Yield, ast.YieldFrom, ast.NamedExpr, ast.Attribute)) and not (
+                isinstance(n, ast.Attribute) and isinstance(n.ctx, ast.Load)):
+            raise ValueError(f"{name}: initialiser is not a pure constant expression")
+    bound = {t.id for n in ast.walk(node) if isinstance(n, ast.comprehension) for t in ast.walk(n.target) if isinstance(t, ast.Name)}
+    env = {}
+    for n in ast.walk(node):
+        if isinstance(n, ast.Name) and isinstance(n.ctx, ast.Load) and n.id not in bound and n.id not in _PURE_BUILTINS:
+            env[n.id] = const_value(m, n.id, _depth + 1)
+    try:
+        return eval(compile(ast.Expression(node), m.rel, "eval"), {"__builtins__": dict(_PURE_BUILTINS)}, env)
+    except Exception as e:  # noqa
+        raise ValueError(f"{name}: {type(e).__name__}: {e}")
+
+
+def skip_tags(m):
+    try:
+        v = const_value(m, "_SKIP_TAGS")
+        return sorted(x for x in v if isinstance(x, str))
+    except (ValueError, TypeError):
+        return None
+
+
 def M_NS(repo=None):
-    return mod(repo).literal("M_NS")
+    return const_value(mod(repo), "M_NS")
 
 
 def Q(name, repo=None):
     return M_NS(repo) + name
+
+
+def A0(c):
+    """the (first) parameter of the function under contract, whatever it is called in the source"""
+    return next(iter(c.args.values()))
+
+
+def pname(qual, k, default, rel=None):
+    """name of the k-th parameter in the real source (contracts bind parameters by position, not by name)"""
+    try:
+        f = loader.module(rel or OMML).functions.get(qual)
+        return f.args.args[k].arg
+    except Exception:  # noqa
+        return default
 
 
 def nb_of(v):
@@ -826,15 +1012,14 @@ def conv_loop_inv(lc):
     c0 = ex.entry_ctx
     if PENDING in c0.args:                       # inside process_element
         p0 = c0.args[PENDING]
-        cond = z3.And(nb_of(c0.args["elem"]), p_not_rbrace(p0))
+        cond = z3.And(nb_of(A0(c0)), p_not_rbrace(p0))
     else:                                        # inside omml_to_latex
-        cond = nb_of(c0.args["omath_element"])
+        cond = nb_of(A0(c0))
     p_now, p_ent = lc.st.lookup(PENDING), lc.entry.lookup(PENDING)
     if p_now is None or p_ent is None:
         return z3.BoolVal(True)
     d_bal, d_D = z3.IntVal(0), z3.IntVal(0)
-    for r in lc.extra.get("accs", ()):
-        now, ent = sums_of(lc.st, r), sums_of(lc.entry, r)
+    for (now, ent) in acc_pairs(lc):
         if now is None or ent is None:
             return z3.BoolVal(False)
         d_bal = d_bal + (bal_of(now) - bal_of(ent))
@@ -843,14 +1028,27 @@ def conv_loop_inv(lc):
                   z3.Implies(cond, z3.And(open_(p_now) - open_(p_ent) == d_bal, d_D >= 0, p_not_rbrace(p_now))))
 
 
+def acc_pairs(lc):
+    """(now, at loop entry) count summaries of everything the loop accumulates: lists of str and str variables"""
+    out = [(sums_of(lc.st, r), sums_of(lc.entry, r)) for r in lc.extra.get("accs", ())]
+    for name in lc.extra.get("svars", ()):
+        a, b = lc.st.lookup(name), lc.entry.lookup(name)
+        out.append((H3(a.t) if isinstance(a, VStr) else None, H3(b.t) if isinstance(b, VStr) else None))
+    return out
+
+
 def greek_loop_inv(lc):
-    t = lc.ex.entry_ctx.args["text"].t
-    accs = lc.extra.get("accs", ())
-    if len(accs) != 1:
+    tv = A0(lc.ex.entry_ctx)
+    pairs = acc_pairs(lc)
+    if len(pairs) != 1 or pairs[0][0] is None or pairs[0][1] is None or not isinstance(tv, VStr):
         return z3.BoolVal(False)
-    sm = sums_of(lc.st, accs[0])
+    t = tv.t
+    sm = {h: pairs[0][0][h] - pairs[0][1][h] for h in HN}          # what the loop has accumulated so far
+    if not (isinstance(lc.seq, VStr) and lc.seq.t.eq(t)):
+        return z3.BoolVal(False)                                  # only loops over the characters of `text`
     hp = H3(prefix(t, lc.i))
-    return z3.And(bal_of(sm) == bal_of(hp), D_of(sm) >= D_of(hp), sm["LB"] >= 0, sm["RB"] >= 0, sm["NW"] >= 0)
+    now = pairs[0][0]
+    return z3.And(bal_of(sm) == bal_of(hp), D_of(sm) >= D_of(hp), now["LB"] >= 0, now["RB"] >= 0, now["NW"] >= 0)
 
 
 def verifying(c):
@@ -869,7 +1067,7 @@ def operand(c, e, name):
     call of process_element on that child (a fresh unconstrained string if there was none)"""
     P = sval(Q(name))
     r = FIND(e, P)
-    hits = [rv for (_t, am, rv) in rcalls(c) if isinstance(am.get("elem"), VExt) and am["elem"].t.eq(r)]
+    hits = [rv for (_t, am, rv) in rcalls(c) if isinstance(next(iter(am.values())), VExt) and next(iter(am.values())).t.eq(r)]
     got = hits[0].t if len(hits) == 1 else z3.String(fresh_name(f"no-unique-call-on-{name}"))
     return z3.If(FINDNONE(e, P), sval(""), got)
 
@@ -903,7 +1101,7 @@ STRUCT_TAGS = ("f", "sSup", "sSub", "sSubSup", "rad", "nary", "d", "m", "func", 
 
 def path_tag(c):
     """the tag literal this path has committed to (from the path condition), if any"""
-    e = c.args["elem"]
+    e = A0(c)
     if not isinstance(e, VExt):
         return None
     ln = lname(e.t)
@@ -919,7 +1117,7 @@ def path_tag(c):
 
 def template(tag):
     def clause(c):
-        ev = c.args["elem"]
+        ev = A0(c)
         if not verifying(c) or not isinstance(ev, VExt) or not isinstance(c.result, VStr):
             return z3.BoolVal(True)
         committed = path_tag(c)
@@ -997,7 +1195,15 @@ def contracts(reg):
     install(reg)
     m = mod()
     out = []
-    greek = m.literal("GREEK_TO_LATEX")
+    try:
+        greek = const_value(m, "GREEK_TO_LATEX")
+        # the executor reads the same evaluated tables (whatever pure expression builds them in the source)
+        reg.module_consts[(OMML, "GREEK_TO_LATEX")] = ops.lift(dict(greek))
+        if skip_tags(m) is not None:
+            from pyvc.values import VSetC
+            reg.module_consts[(OMML, "_SKIP_TAGS")] = VSetC(skip_tags(m), "_SKIP_TAGS")
+    except (ValueError, TypeError):
+        greek = {}
     fn_conv = m.functions["convert_greek_and_symbols"]
     fn_omml = m.functions["omml_to_latex"]
 
@@ -1006,13 +1212,13 @@ def contracts(reg):
         fs = []
         if once(c.st, "const-facts-conv"):
             fs += const_facts(list(greek) + [""] + source_literals(fn_conv))
-        t = c.args["text"]
+        t = A0(c)
         if isinstance(t, VStr):
             fs += str_facts(t.t)
         return z3.And(fs) if fs else z3.BoolVal(True)
 
     def tx(c):
-        t = c.args["text"]
+        t = A0(c)
         return t.t if isinstance(t, VStr) else z3.String(fresh_name("not-a-str"))
 
     def conv_result(ex, st, c):
@@ -1020,8 +1226,8 @@ def contracts(reg):
 
     out.append(FnContract(
         target=f"{OMML}::convert_greek_and_symbols",
-        params=[("text", Maker(lambda ex, st, name: VStr(z3.String(name)), desc="str"))],
-        requires=lambda c: z3.BoolVal(isinstance(c.args["text"], VStr)),     # a str: None is not iterable
+        params=[(pname("convert_greek_and_symbols", 0, "text"), Maker(lambda ex, st, name: VStr(z3.String(name)), desc="str"))],
+        requires=lambda c: z3.BoolVal(isinstance(A0(c), VStr)),     # a str: None is not iterable
         hyps=conv_hyps,
         result_maker=conv_result,
         total=True, raises=[],
@@ -1031,7 +1237,7 @@ def contracts(reg):
             ("balance-preserved", lambda c: bal_of(H3(c.result.t)) == bal_of(H3(tx(c)))),
             ("no-lone-brace", lambda c: D_of(H3(c.result.t)) >= D_of(H3(tx(c)))),
         ],
-        loops={0: LoopSpec(inv=greek_loop_inv)},
+        loops={"*": LoopSpec(inv=greek_loop_inv)},
         note="char-wise map through GREEK_TO_LATEX: total on str, preserves brace balance",
     ))
 
@@ -1040,13 +1246,13 @@ def contracts(reg):
         return p_inv(c.args[PENDING])
 
     def pe_hyps(c):
-        fs = list(elem_hyps(c.args["elem"]))
+        fs = list(elem_hyps(A0(c)))
         if once(c.st, "const-facts-pe"):
             fs += const_facts([""] + source_literals(fn_omml))
         ex = c.ex
-        if ex.contract is not None and ex.contract.target == PE and isinstance(c.args["elem"], VExt):
+        if ex.contract is not None and ex.contract.target == PE and isinstance(A0(c), VExt):
             wt = ex.witness_terms = getattr(ex, "witness_terms", {})
-            e = c.args["elem"].t
+            e = A0(c).t
             n0, t0 = opt_parts(c.args[PENDING])
             wt.setdefault("tag", lname(e))
             wt.setdefault("pending_is_none", n0)
@@ -1058,7 +1264,7 @@ def contracts(reg):
         return VStr(t)
 
     def pe_cond(c):
-        return z3.And(nb_of(c.args["elem"]), p_not_rbrace(c.args[PENDING]))
+        return z3.And(nb_of(A0(c)), p_not_rbrace(c.args[PENDING]))
 
     def pe_balance(c):
         h = H3(c.result.t)
@@ -1069,26 +1275,28 @@ def contracts(reg):
         return z3.Implies(pe_cond(c), z3.And(D_of(h) >= 0, p_not_rbrace(c.closure(PENDING))))
 
     def pe_none(c):
-        if isinstance(c.args["elem"], VExt):
+        if isinstance(A0(c), VExt):
             return z3.BoolVal(True)
         return z3.And(c.result.t == sval(""), p_same(c.args[PENDING], c.closure(PENDING)))
 
     def pe_skip(c):
-        ev = c.args["elem"]
+        ev = A0(c)
         if not verifying(c) or not isinstance(ev, VExt):
             return z3.BoolVal(True)
-        tags = sorted(c.ex.module_const("_SKIP_TAGS").items)
+        tags = skip_tags(mod(c.ex.module.repo))
+        if tags is None:
+            return z3.BoolVal(False)
         is_skip = z3.Or([lname(ev.t) == sval(k) for k in tags])
         return z3.Implies(is_skip, z3.And(c.result.t == sval(""), p_same(c.args[PENDING], c.closure(PENDING)),
                                           z3.BoolVal(len(rcalls(c)) == 0)))
 
     def dec(c):
-        v = c.args["elem"]
+        v = A0(c)
         return SIZE(v.t) if isinstance(v, VExt) else z3.IntVal(0)
 
     out.append(FnContract(
         target=PE,
-        params=[("elem", p_opt(p_ext("Element")))],
+        params=[(pname(f"omml_to_latex.<locals>.{PE_NAME}", 0, "elem"), p_opt(p_ext("Element")))],
         closure=[(PENDING, p_optstr())], closure_modifies=(PENDING,),
         requires=pe_requires, hyps=pe_hyps, result_maker=pe_result,
         total=True, raises=[], decreases=dec,
@@ -1104,30 +1312,34 @@ def contracts(reg):
         loops={"*": LoopSpec(inv=conv_loop_inv)},
         note="recursive; verified against its own contract at every recursive call",
     ))
+    out[-1].oid_name = PE_OID
 
     # ----------------------------------------------------------------------- omml_to_latex --
     def om_hyps(c):
-        fs = list(elem_hyps(c.args["omath_element"]))
+        fs = list(elem_hyps(A0(c)))
         if once(c.st, "const-facts-om"):
             fs += const_facts([""] + source_literals(fn_omml))
         return z3.And(fs) if fs else z3.BoolVal(True)
 
     def om_none(c):
-        if isinstance(c.args["omath_element"], VExt):
+        if isinstance(A0(c), VExt):
             return z3.BoolVal(True)
         return c.result.t == sval("")
 
     out.append(FnContract(
         target=f"{OMML}::omml_to_latex",
-        params=[("omath_element", p_opt(p_ext("Element")))],
+        params=[(pname("omml_to_latex", 0, "omath_element"), p_opt(p_ext("Element")))],
+        # callers hand in an Element or None (checked at every call site inside a function under contract)
+        requires=lambda c: z3.BoolVal(isinstance(A0(c), VNoneT) or
+                                      (isinstance(A0(c), VExt) and A0(c).sort == "Element")),
         hyps=om_hyps,
         # a function of the tree (the determinism policy obligations + no mutation of the tree by its callers)
-        result_maker=lambda ex, st, c: VStr(OML(c.args["omath_element"].t)) if isinstance(c.args["omath_element"], VExt)
+        result_maker=lambda ex, st, c: VStr(OML(A0(c).t)) if isinstance(A0(c), VExt)
         else VStr(""),
         total=True, raises=[],
         ensures=[
             ("returns-str", lambda c: z3.BoolVal(isinstance(c.result, VStr))),
-            ("balanced-for-brace-free-trees", lambda c: z3.Implies(nb_of(c.args["omath_element"]),
+            ("balanced-for-brace-free-trees", lambda c: z3.Implies(nb_of(A0(c)),
                                                                   bal_of(H3(c.result.t)) == 0)),
             ("None-is-empty", om_none),
         ],
@@ -1148,14 +1360,11 @@ def tables(repo, tier):
     G = lambda oid, ok, why="": obls.append(ground_obligation(
         f"C19/omml_to_latex.py::{oid}", ok, why, "tables", kind="module-invariant", backend="ground"))
     try:
-        greek = m.literal("GREEK_TO_LATEX")
-        ns = m.literal("M_NS")
+        greek = const_value(m, "GREEK_TO_LATEX")
+        ns = const_value(m, "M_NS")
     except Exception as e:  # noqa
         return {"undecided": [{"obligation": "C19/omml_to_latex.py::tables", "why": f"table not a literal: {e}"}]}
-    ex = Executor(m, Registry(), Universe(repo))
-    ex.sinks.append([])
-    skip = ex.module_const("_SKIP_TAGS")
-    skip = set(getattr(skip, "items", ()))
+    skip = set(skip_tags(m) or ())
     lb, rb, nw = (HOMS[h][1] for h in HN)
     bad = [k for k in greek if not (isinstance(k, str) and len(k) == 1)]
     G("GREEK_TO_LATEX/module-invariant#keys-are-single-characters", not bad and len(greek) > 0, repr(bad))
@@ -1180,17 +1389,12 @@ def tables(repo, tier):
     P = lambda oid, ok, why="": obls.append(ground_obligation(
         f"C19/{oid}", ok, why or "shape not recognised", "syntax", definite=False))
     fo = m.functions.get("omml_to_latex")
-    fp = m.functions.get("omml_to_latex.<locals>.process_element")
+    fp = m.functions.get(f"omml_to_latex.<locals>.{PE_NAME}")
     if fo is not None and fp is not None:
-        # module constants: names bound once at module level to a literal (or frozenset/tuple/dict of literals),
-        # module-level functions, and the ElementTree import used in annotations
-        def is_const(v):
-            try:
-                ast.literal_eval(v)
-                return True
-            except (ValueError, SyntaxError, TypeError):
-                return isinstance(v, ast.Call) and isinstance(v.func, ast.Name) and v.func.id in ("frozenset", "tuple") \
-                    and all(is_const(a) for a in v.args) and not v.keywords
+        # module constants: names bound exactly once at module level, never mutated, whose initialiser reads only
+        # literals, other such constants and pure builtins (comprehensions, f-strings, dict()/frozenset() ... included)
+        PURE = {"frozenset", "tuple", "dict", "set", "list", "sorted", "str", "len", "range", "zip", "enumerate", "chr", "ord",
+                "int", "bool", "min", "max", "sum", "reversed", "map", "filter", "repr", "float", "bytes", "any", "all", "abs"}
         stores = {}
         for n in ast.walk(m.tree):
             if isinstance(n, ast.Name) and isinstance(n.ctx, (ast.Store, ast.Del)):
@@ -1199,9 +1403,34 @@ def tables(repo, tier):
                    and isinstance(n.ctx, (ast.Store, ast.Del)) and isinstance(n.value, ast.Name)}
         mutated |= {n.func.value.id for n in ast.walk(m.tree) if isinstance(n, ast.Call) and isinstance(n.func, ast.Attribute)
                     and isinstance(n.func.value, ast.Name) and n.func.attr in
-                    ("append", "extend", "add", "update", "pop", "clear", "remove", "setdefault", "insert", "discard", "popitem")}
-        allowed_globals = {k for k, v in m.assigns.items() if is_const(v) and stores.get(k, 0) == 1 and k not in mutated}
+                    ("append", "extend", "add", "update", "pop", "clear", "remove", "setdefault", "insert", "discard", "popitem",
+                     "sort", "reverse")}
+        mutated |= {x for n in ast.walk(m.tree) if isinstance(n, ast.Global) for x in n.names}
+
+        def pure(v, consts):
+            bound = {t.id for n in ast.walk(v) if isinstance(n, ast.comprehension) for t in ast.walk(n.target) if isinstance(t, ast.Name)}
+            for n in ast.walk(v):
+                if isinstance(n, (ast.Lambda, ast.Await, ast.Yield, ast.YieldFrom, ast.NamedExpr)):
+                    return False
+                if isinstance(n, ast.Name) and isinstance(n.ctx, ast.Load) and n.id not in bound | consts | PURE:
+                    return False
+                if isinstance(n, ast.Call) and not (isinstance(n.func, ast.Name) or isinstance(n.func, ast.Attribute)):
+                    return False
+            return True
+        cands = {k: v for k, v in m.assigns.items() if stores.get(k, 0) == 1 and k not in mutated}
+        allowed_globals = set()
+        changed = True
+        while changed:
+            changed = False
+            for k, v in cands.items():
+                if k not in allowed_globals and pure(v, allowed_globals):
+                    allowed_globals.add(k)
+                    changed = True
         allowed_globals |= {k for k in m.functions if "." not in k} | {"ET"}
+        # a module logger: log statements are not part of the function's result (PY-LOG)
+        allowed_globals |= {k for k, v in m.assigns.items() if isinstance(v, ast.Call) and dotted(v.func) in
+                            ("logging.getLogger", "getLogger")}
+        allowed_globals |= {k for k, v in m.imports.items() if v.split(".")[0] in ("logging", "typing", "__future__")}
         locs = {a.arg for a in fo.args.args} | {n.id for n in ast.walk(fo) if isinstance(n, ast.Name) and isinstance(n.ctx, ast.Store)}
         locs |= {a.arg for a in fp.args.args} | {fp.name}
         ann = set()
@@ -1213,10 +1442,16 @@ def tables(repo, tier):
                       - locs - allowed_globals)
         nonl = sorted({x for n in ast.walk(fo) if isinstance(n, (ast.Nonlocal, ast.Global)) for x in n.names})
         P("omml_to_latex.py::omml_to_latex/policy#reads-only-argument-closure-state-and-module-constants",
-          not free and nonl == [PENDING], f"free={free} nonlocal/global={nonl}")
+          not free and nonl == [PENDING] and not any(isinstance(n, ast.Global) for n in ast.walk(fo)),
+          f"free={free} nonlocal/global={nonl}")
         iters = [n.iter for n in ast.walk(fo) if isinstance(n, (ast.For, ast.comprehension))]
-        bad = [ast.unparse(i) for i in iters if not (isinstance(i, ast.Name) or (isinstance(i, ast.Call) and isinstance(i.func, ast.Attribute)
-                                                                                and i.func.attr in ("findall", "iter", "items")))]
+        unordered_consts = {k for k, v in m.assigns.items() if isinstance(v, (ast.Set, ast.SetComp)) or
+                            (isinstance(v, ast.Call) and isinstance(v.func, ast.Name) and v.func.id in ("set", "frozenset"))}
+
+        def unordered(i):
+            return isinstance(i, (ast.Set, ast.SetComp)) or (isinstance(i, ast.Name) and i.id in unordered_consts) or \
+                (isinstance(i, ast.Call) and isinstance(i.func, ast.Name) and i.func.id in ("set", "frozenset"))
+        bad = [ast.unparse(i) for i in iters if unordered(i)]
         P("omml_to_latex.py::omml_to_latex/policy#iterates-only-ordered-sequences", not bad, repr(bad))
         banned = [ast.unparse(n.func) for n in ast.walk(fo) if isinstance(n, ast.Call) and dotted(n.func).split(".")[0] in
                   ("random", "time", "os", "id", "hash", "set", "frozenset", "open", "input")]
@@ -1237,10 +1472,14 @@ def tables(repo, tier):
             if ".<locals>." in q:
                 continue
             for n in ast.walk(f):
-                if isinstance(n, ast.Call) and dotted(n.func) == "omml_to_latex":
+                if isinstance(n, ast.Call) and dotted(n.func).split(".")[-1] == "omml_to_latex":
                     sites.append((q, f, n))
         ok_all, why = bool(sites), []
+        from contracts import C19_sites as _S
+        covered = {t.split("::")[1] for t in (_S.T_PPTX, _S.T_DOCX, _S.T_PTE) if t.split("::")[0] == rel}
         for (q, f, n) in sites:
+            if q in covered:
+                continue          # the argument kind is a call-pre VC of that function's contract (or its bounded stand-in)
             a = n.args[0] if len(n.args) == 1 and not n.keywords else None
             ok = isinstance(a, ast.Name)
             if ok:
@@ -1260,31 +1499,14 @@ def tables(repo, tier):
         if sites:
             fns.append({"function": f"{rel}::(call sites of omml_to_latex)", "lines": [min(n.lineno for _, _, n in sites), max(n.lineno for _, _, n in sites)],
                         "file_sha256": cm.sha256, "segment_sha256": "", "obligations": 1})
-    # consumer of the pptx formula list: every (latex, is_display) pair becomes a PptxFormula with those fields
-    # and a "$$..$$" / "$..$" text entry  (syntactic; an unrecognised shape is decided by the native end-to-end run)
+    # consumer of the pptx formula list: the real loop body is executed symbolically for one arbitrary pair
+    # (contracts/C19_sites.py::consumer_obligation); an unrecognised shape is decided by the native end-to-end run
     try:
-        pm = loader.module("sharepoint2text/parsing/extractors/ms_modern/pptx_extractor.py", repo)
-        fs = pm.functions.get("_process_slide_from_context")
-        loops = [n for n in ast.walk(fs) if isinstance(n, ast.For) and isinstance(n.iter, ast.Call)
-                 and dotted(n.iter.func) == "_extract_formulas_from_element"] if fs is not None else []
-        calls = [n for n in ast.walk(pm.tree) if isinstance(n, ast.Call) and dotted(n.func) == "_extract_formulas_from_element"]
-        ok = len(loops) == 1 and len(calls) == 1
-        why = f"{len(loops)} consuming loops / {len(calls)} calls"
-        if ok:
-            lp = loops[0]
-            ok = isinstance(lp.target, ast.Tuple) and len(lp.target.elts) == 2 and all(isinstance(x, ast.Name) for x in lp.target.elts)
-        if ok:
-            a, b = (x.id for x in lp.target.elts)
-            top = [ast.unparse(x) for x in lp.body]          # statements executed on every iteration
-            ok = any(t.endswith(f"append(PptxFormula(latex={a}, is_display={b}))") for t in top) \
-                and any(f"f'$${{{a}}}$$' if {b} else f'${{{a}}}$'" in t for t in top) \
-                and not any(isinstance(x, (ast.Continue, ast.Break, ast.Return)) for st_ in lp.body for x in ast.walk(st_))
-            why = "; ".join(top)[:300]
-        P("pptx_extractor.py::_process_slide_from_context/call-site#every-listed-formula-becomes-PptxFormula-and-text", ok, why)
-        if fs is not None:
-            fns.append(dict(pm.fn_info("_process_slide_from_context"), obligations=1))
-    except FileNotFoundError:
-        und.append({"obligation": "C19/pptx_extractor.py::_process_slide_from_context", "why": "contract-target-missing"})
+        from contracts import C19_sites
+        ok, why = C19_sites.consumer_obligation(repo)
+    except Exception as e:  # noqa
+        ok, why = None, f"{type(e).__name__}: {e}"
+    P("pptx_extractor.py::_process_slide_from_context/call-site#every-listed-formula-becomes-PptxFormula-and-text", bool(ok), why)
     return {"obligations": obls, "functions": fns, "undecided": und}
 
 
@@ -1334,6 +1556,62 @@ BOUNDED = ["order of the formula lists built at the docx / pptx call sites (disp
            "run texts emitted exactly once and in source order: checked natively by replay/C19.py on all schema-shaped "
            "trees up to depth 2 / width 2 (small scope), not proved",
            "determinism beyond the syntactic policy obligations: double-run comparison in replay/C19.py (small scope)"]
+
+LOCK_OPTIONAL_KINDS = ("inv-init", "inv-preserve", "decreases", "call-pre")   # exist only while the code has the construct
+
+
+def post_report(c, rep):
+    """Every VC of this pack speaks about abstractions (uninterpreted counts, summarised lists, havocked loop states,
+    contracts standing for calls): a solver model of one is a *candidate*, not a counterexample.  It becomes `unknown`;
+    the native replayer (small-scope search on the real code) then either produces a failing input (VIOLATION) or
+    leaves it UNDECIDED.  Ground table obligations (EXTRA) are definite and are not touched."""
+    if rep.out_of_subset or (rep.error and rep.error != "contract-target-missing"):
+        _native_standin(c, rep)
+    for o in rep.obligations:
+        if o.get("status") == "refuted":
+            o["status"] = "unknown"
+            o["reason"] = ("candidate counter-model over the pack's abstractions; " + (o.get("reason") or ""))[:300]
+
+
+def _native_standin(c, rep):
+    """The changed function left the subset the executor models (or broke a pack model).  Nothing is proved about it in
+    this run; instead the executable contract is run natively on the real code over the replayer's small scope.
+    A failing input -> `unknown` (the check replays it and reports the VIOLATION); none -> ONE obligation with status
+    `bounded-ok`: a BOUNDED stand-in (DESIGN 2.8), listed as such, never counted as discharged."""
+    import json
+    import os
+    import subprocess
+    root = os.path.dirname(os.path.dirname(os.path.abspath(__file__)))
+    rel, qual = c.target.split("::")
+    short = rel.split("/")[-1]
+    oid = f"C19/{short}::{getattr(c, 'oid_name', None) or qual}/out-of-subset"
+    why = ("OUT-OF-SUBSET " + rep.out_of_subset) if rep.out_of_subset else ("PACK-MODEL-ERROR " + str(rep.error))
+    repo = loader.REPO
+    try:
+        p_ = subprocess.run(["/venv/bin/python", os.path.join(root, "replay", "run.py")],
+                            input=json.dumps({"property": "C19", "obligation": oid, "repo": repo, "function": c.target}),
+                            capture_output=True, text=True, timeout=900, cwd=root, env=dict(os.environ, VERIF_REPO=repo))
+        lines = [l for l in p_.stdout.splitlines() if l.startswith("{")]
+        res = json.loads(lines[-1]) if lines else {"reproduced": False, "note": "no output"}
+    except Exception as e:  # noqa
+        res = {"reproduced": False, "note": f"native run failed: {e}"}
+    ob = {"id": oid, "kind": "out-of-subset", "vcs": 1, "seconds": 0.0, "backends": {"native-small-scope": 1}, "witness": None,
+          "loc": rel, "volatile": True}
+    if res.get("reproduced"):
+        ob.update(status="unknown", reason=(why + "; a failing input exists natively")[:300])
+    elif "satisf" in (res.get("note") or "") or "every formula" in (res.get("note") or ""):
+        ob.update(status="bounded-ok", bounded=True, bound="small scope of replay/C19.py (see BOUNDED)",
+                  reason=(why + "; not re-verified: " + (res.get("note") or ""))[:400])
+    else:
+        return                      # native run did not complete: stays out-of-subset (UNDECIDED)
+    rep.out_of_subset = None
+    rep.error = None
+    rep.obligations = [ob]
+    try:
+        rep.info = loader.module(rel).fn_info(qual)
+    except Exception:  # noqa
+        rep.info = {"function": c.target}
+
 
 REPLAY_UNKNOWN = True    # undecided / out-of-subset items are searched natively (replay) before being reported UNDECIDED
 
